@@ -1094,6 +1094,61 @@ example : (readAllEntries fwCols fwDc (specWrite fwCfg (fun _ b => b) none fwCs 
 example : (readAllEntries fwCols fwDc (specWrite fwCfg (fun _ b => b) none fwCs [[], [], []]) ==
     some (0, [])) = true := by decide +kernel
 
+/-! ### parquet-mr style labels: a required, an optional and a repeated column, `mrLabels := true` -/
+
+private def mrCols : List Col :=
+  [{ path := ["a"], reps := [.req], ty := .i32 }, { path := ["b"], reps := [.opt], ty := .i32 },
+   { path := ["c"], reps := [.rpt], ty := .i32 }]
+private def mrCfg : SWCfg :=
+  { cols := mrCols, codecs := [0, 1, 2], withStats := true, withExtras := true, padv := 3, mrLabels := true }
+/-- record `k`: `a = k`; `b = k` for even `k`, null for odd `k`; `c = [k, k + 256]` for even `k`, `[]` for odd `k` -/
+private def mrRec (k : Nat) : Rec :=
+  [[{ rep := 0, dl := 0, val := some [k, 0, 0, 0] }],
+   if k % 2 = 0 then [{ rep := 0, dl := 1, val := some [k, 0, 0, 0] }] else [{ rep := 0, dl := 0, val := none }],
+   if k % 2 = 0 then [{ rep := 0, dl := 1, val := some [k, 0, 0, 0] }, { rep := 1, dl := 1, val := some [k, 1, 0, 0] }]
+   else [{ rep := 0, dl := 0, val := none }]]
+private def mrGroups : List (List Rec) := [[mrRec 1, mrRec 2, mrRec 3], [mrRec 4]]
+
+private theorem mr_hx : ∀ x ∈ mrCols.zipIdx,
+    x = (⟨["a"], [.req], .i32⟩, 0) ∨ x = (⟨["b"], [.opt], .i32⟩, 1) ∨ x = (⟨["c"], [.rpt], .i32⟩, 2) := by
+  intro x hx; simpa [mrCols] using hx
+
+/-- the labels this configuration writes: the required column `a` has both level encodings labelled
+BIT_PACKED (4), the optional column `b` its repetition-level encoding, the repeated column `c` neither -/
+example : (mrCols.map fun c => (mrCfg.defLabel c, mrCfg.repLabel c)) = [(4, 4), (3, 4), (3, 3)] := by decide
+
+/-- ... and they are in the file: it differs from the one written with RLE labels throughout -/
+example : specWrite mrCfg (fun _ b => b) none fwCs mrGroups ≠
+    specWrite { mrCfg with mrLabels := false } (fun _ b => b) none fwCs mrGroups := by decide +kernel
+
+/-- **the theorem applied to a file with parquet-mr style labels** — all hypotheses discharged: 4 rows and the
+four written records, in order, for the required, the optional and the repeated column alike -/
+example : readAllEntries mrCols fwDc (specWrite mrCfg (fun _ b => b) none fwCs mrGroups) =
+    some (4, [mrRec 1, mrRec 2, mrRec 3, mrRec 4]) := by
+  have := readAll_specWrite mrCfg (fun _ b => b) fwDc fwCs mrGroups
+    (colsResolve_of_check _ (by decide +kernel)) (by decide) (fun raw => ⟨rfl, rfl⟩)
+    (by
+      intro rg hrg r hr x hx
+      have hrg' : rg = [mrRec 1, mrRec 2, mrRec 3] ∨ rg = [mrRec 4] := by simpa [mrGroups] using hrg
+      rcases hrg' with rfl | rfl
+      · have hr' : r = mrRec 1 ∨ r = mrRec 2 ∨ r = mrRec 3 := by simpa using hr
+        rcases mr_hx x hx with rfl | rfl | rfl <;> rcases hr' with rfl | rfl | rfl <;>
+          exact ⟨⟨_, _, rfl, rfl, by simp⟩, by decide, by decide⟩
+      · have hr' : r = mrRec 4 := by simpa using hr
+        subst hr'
+        rcases mr_hx x hx with rfl | rfl | rfl <;> exact ⟨⟨_, _, rfl, rfl, by simp⟩, by decide, by decide⟩)
+    (by decide)
+    (by
+      intro rg hrg x hx
+      have hrg' : rg = [mrRec 1, mrRec 2, mrRec 3] ∨ rg = [mrRec 4] := by simpa [mrGroups] using hrg
+      rcases hrg' with rfl | rfl <;> rcases mr_hx x hx with rfl | rfl | rfl <;> decide)
+    (by decide +kernel)
+  exact this
+
+/-- the same by kernel evaluation of the writer and reader models alone -/
+example : (readAllEntries mrCols fwDc (specWrite mrCfg (fun _ b => b) none fwCs mrGroups) ==
+    some (4, [mrRec 1, mrRec 2, mrRec 3, mrRec 4])) = true := by decide +kernel
+
 end NonVacuity
 
 end PQ
